@@ -29,6 +29,14 @@ def run(ctx):
                     lines.append(line)
                     metas.append(m)
                     cid += 1
+            # runs in which NO realization is adopted (every likelihood NaN): the matrices written are the ones the front end allocated itself --
+            # the in-membership matrix N x K exactly for the directed selections
+            two = {'L': 2, 'recs': [('1', '2', ['1', '1']), ('2', '3', ['0', '1'])]}
+            for variant in [v_ for v_ in gen.VARIANTS if v_[2]]:
+                line, m = cli.make_case(ctx.rng.fork('ov%d' % cid), cid, wd, variant=variant, edges=two, overflow_w=True)
+                lines.append(line)
+                metas.append(m)
+                cid += 1
             res2 = ctx.component('K-CLI(the binary on all 8 variants vs the library variant of the reference table)', lines, model=False)
             if res2:
                 ctx.extra['cli_identification'] = cli.run_and_compare(ctx, ctx.bdir, metas, res2['impl'])
